@@ -13,7 +13,7 @@ META = {
     'required_obs': {'quick': ['cmp-dict', 'cmp-struct', 'cmp-hdf5', 'cmp-inline-window', 'window-dict', 'window-struct',
                                'window-hdf5', 'window-inline', 'permuted', 'extra-datasets', 'mapping', 'open-ended',
                                'frames-decoded', 'fastpath-permuted', 'fastpath-aligned', 'fastpath-view', 'fastpath-packed', 'same-data-object-reused',
-                               'repeated-channel-names', 'repeated-channel-names-across-sets', 'paths-as-Path', 'int-cast-out-of-range', 'float-cast-out-of-range', 'float-cast-reference-written', 'float-cast-reference-refused', 'consecutive-windows-one-file',
+                               'repeated-channel-names', 'repeated-channel-names-across-sets', 'paths-as-Path', 'int-cast-out-of-range', 'float-cast-out-of-range', 'index-of-signed-zeros', 'float-cast-reference-written', 'float-cast-reference-refused', 'consecutive-windows-one-file',
                                'index-channel-with-units', 'permuted-dataset-names']},
     'exhaustive_windows': {'quick': ['all windows 0 <= from < to <= N for N = 4, every source kind'],
                            'thorough': ['all windows 0 <= from < to <= N for N in 1..6, every source kind x input chunk {None,1,2}']},
@@ -40,6 +40,10 @@ def cases(tier, seed):
     # declared casts of floats, some of which the target cannot hold: refused or written, the same for every kind of source
     for k in range(60 if tier == 'quick' else 1500):
         yield {'stratum': 'float-cast-out-of-range', 'index': k, 'kind': 'float-cast'}
+    # an index channel holding both zeros (-0.0 and 0.0 compare equal: which of them a minimum / maximum returns is up to
+    # the reduction order, i.e. to the memory layout the source hands over)
+    for k in range(30 if tier == 'quick' else 600):
+        yield {'stratum': 'index-of-signed-zeros', 'index': k, 'kind': 'signed-zeros'}
     # ONE DLISFile written several times with consecutive row windows (the data split over several files)
     for k in range(40 if tier == 'quick' else 1000):
         yield {'stratum': 'consecutive-windows-one-file', 'index': k, 'kind': 'consecutive'}
@@ -178,6 +182,33 @@ def run_case(case):
             sp['write'].update({'source': src, 'perm_seed': None, 'extra': 0, 'input_chunk_size': r.choice(gen.chunk_choices(N))})
             compare(ref, sp, src, f'int-cast:{src}', True, decode=True)
         sample = {'kind': 'int cast', 'rows': N, 'channels': [(o['name'], o['data']['dtype'], o.get('cast_dtype')) for o in base['ops'] if o['op'] == 'channel'][:6]}
+    elif case['kind'] == 'signed-zeros':
+        r = gen.rng(seed, PROP, case['stratum'], case['index'])
+        N = r.choice([2, 3, 5, 8, 9, 16, 17, 33])
+        k0 = r.randrange(1, N)
+        zs = [-0.0] * k0 + [0.0] * (N - k0)
+        if r.random() < 0.5:
+            zs.reverse()
+        if r.random() < 0.3:
+            r.shuffle(zs)
+        dt = r.choice(['<f8', '<f4', '>f8'])
+        base = gen.base_spec(r.choice([256, 8192]))
+        base['ops'].append(gen.origin_op())
+        base['ops'].append(gen.channel_op('DEPTH', dt, (N,), fill={'kind': 'seq', 'values': zs}))
+        base['ops'].append(gen.channel_op('Y', r.choice(['<f8', '<i2']), (N,), fill={'kind': 'pos', 'tag': 2}))
+        if r.random() < 0.5:
+            base['ops'].append(gen.channel_op('Z', '<u1', (N, 3), fill={'kind': 'pos', 'tag': 3}))
+        chans_ = [i for i, o in enumerate(base['ops']) if o['op'] == 'channel']
+        base['ops'].append(gen.frame_op('FR', chans_, index_type='BOREHOLE-DEPTH'))
+        base['write'] = {'source': 'inline', 'output_chunk_size': 2 ** 16}
+        ref = run(base)
+        bump('index-of-signed-zeros')
+        for src in ['dict', 'struct', 'hdf5']:
+            sp = copy.deepcopy(base)
+            sp['write'].update({'source': src, 'perm_seed': None, 'extra': r.choice([0, 1]), 'input_chunk_size': r.choice(gen.chunk_choices(N)),
+                                'struct_variant': r.choice([None, 'aligned', 'view']) if src == 'struct' else None})
+            compare(ref, sp, src, f'signed-zeros:{src}:{dt}:{N}', True, decode=True)
+        sample = {'kind': 'index of signed zeros', 'rows': N, 'dtype': dt}
     elif case['kind'] == 'float-cast':
         r = gen.rng(seed, PROP, case['stratum'], case['index'])
         base, xi, src_dt, dst, nbad = gen.float_cast_spec(r, sources=('inline',))
